@@ -98,6 +98,18 @@ CLAIMED["C27"] = {
     "technique": "property-based testing + exhaustive layout pairs vs validity predicates and a brute-force model",
 }
 
+CLAIMED["C16"] = {
+    "text": "Exhaustive enumeration of small int / explicit / auto specs (every composition of n as previous_chunks at every limit and three tolerances) plus Hypothesis-built specs of rank 0-4 in all documented forms under drawn array.chunk-size / chunk-size-tolerance; every accepted normalize_chunks call must return one non-empty tuple of non-negative integral sizes per axis summing to the axis length, uniform ints give (c,...,c,r), explicit tuples unchanged, -1/None one chunk, auto axes within the byte limit unless the fixed axes alone exceed it. " + EXPL,
+    "note": "Exceptions mean 'not accepted' and are counted by type; the limit may be exceeded by array.chunk-size-tolerance only when previous_chunks is given; negative sizes other than -1 are outside the property's spec forms (observed and counted, not judged); one listed open finding (zero-size chunk in previous_chunks).",
+    "technique": "exhaustive small-domain enumeration + Hypothesis random inputs vs validity predicate",
+}
+
+CLAIMED["C10"] = {
+    "text": PROG + " weighted toward fused chains, rechunk views, sliding-window kernels, setitem and shared subgraphs; each output's graph is executed by the harness' own executor under 6 owned schedules (DFS, BFS, reverse, 3 Hypothesis-drawn random topological orders) plus dask's threaded (x2) and sync schedulers; all results bitwise identical and equal to NumPy; around every task the fingerprints of its dependencies are unchanged and at the end every produced value still has its creation fingerprint; every task re-executed gives the same bits; from_array sources unchanged. " + EXPL,
+    "note": "Thread interleavings are not controlled (smoke test only); schedule independence is argued from the per-task premises (no mutation of any other value, determinism) checked under all generated orders.",
+    "technique": "property-based testing with harness-owned schedules: invariant over task executions + differential across schedules",
+}
+
 NOT_APPLICABLE = {
     "C22": "native Rust extension cannot be built offline (pyo3 0.29 and other crates are absent from the offline cargo registry; no prebuilt .so), so no native layer can be instantiated to generate inputs against; see DESIGN.md section 4 C22",
 }
